@@ -138,14 +138,17 @@ func (rs *ResourceSubscription) handleEvent(r *ResourceEvent) {
 
 	switch r.Event {
 	case "change":
+		verifResetDropped(rs)
 		if rs.resetting || !rs.handleEventChange(r) {
 			return
 		}
 	case "add":
+		verifResetDropped(rs)
 		if rs.resetting || !rs.handleEventAdd(r) {
 			return
 		}
 	case "remove":
+		verifResetDropped(rs)
 		if rs.resetting || !rs.handleEventRemove(r) {
 			return
 		}
@@ -157,6 +160,7 @@ func (rs *ResourceSubscription) handleEvent(r *ResourceEvent) {
 	}
 
 	rs.e.mu.Unlock()
+	verifPoint("cache.fanout")
 	for sub := range rs.subs {
 		sub.Event(r)
 	}
@@ -301,6 +305,7 @@ func (rs *ResourceSubscription) handleEventDelete(r *ResourceEvent) {
 	rs.e.removeCount(c)
 
 	rs.e.mu.Unlock()
+	verifPoint("cache.fanout")
 	for sub := range subs {
 		sub.Event(r)
 	}
@@ -313,6 +318,7 @@ func (rs *ResourceSubscription) enqueueGetResponse(data []byte, err error) {
 
 		rs.e.mu.Unlock()
 		defer rs.e.mu.Lock()
+		verifPoint("cache.fanout")
 		if rs.state == stateError {
 			for _, sub := range sublist {
 				sub.Loaded(nil, rs.err)
@@ -390,6 +396,7 @@ func (rs *ResourceSubscription) processGetResponse(payload []byte, err error) (n
 			rs.e.links[rs.query] = nrs
 			delete(rs.e.queries, rs.query)
 		}
+		verifCount("query.link")
 		nrs.links = append(nrs.links, rs.query)
 
 		// Copy over all subscribers
@@ -416,6 +423,7 @@ func (rs *ResourceSubscription) processGetResponse(payload []byte, err error) (n
 	// When the second request returns, its resourceSubscription
 	// will already be updated by the response from the first request.
 	if nrs.state > stateRequested {
+		verifCount("query.handover")
 		return
 	}
 
